@@ -29,13 +29,14 @@ ASSUMPTIONS = ["the oracle is our transcription of the standard, not a second im
 
 
 def gen(r, tier):
-    n = {"quick": 1200, "search": 5000, "thorough": 8000}[tier]
+    n = {"quick": 2300, "search": 6000, "thorough": 9000}[tier]
     cases = []
     for p in g.PRIMS:
         t = ("S", "A", [(0, 0, ("p", "u8")), (1, 0, ("p", p)), (2, 0, ("A", 2, ("p", p)))])
         for ver in (1, 2):
             for end in ("le", "be"):
                 cases.append(("rt", ver, end, t, g.gen_value(r, t)))
+    cases += g.phase_cases(r)
     while len(cases) < n:
         stage = 1 if r.random() < 0.5 else 2
         t = g.gen_struct(r, r.choice([0, 1, 1, 2, 2, 3]), stage)
@@ -54,6 +55,11 @@ def corpus():
     P = lambda k: ("p", k)
     pv = lambda k, x: ("p", k, x)
     return [
+        # struct Track { sequence<double> samples; unsigned long count; } = {[], 42}: XCDR1 has NO padding after the
+        # zero length (rule (11) applies rule (2) once per element); and a nested variant with sequence<uint64>
+        ("rt", 1, "le", ("S", "F", [(0, 0, ("Q", P("f64"))), (1, 0, P("u32"))]), ("d", [(0, ("q", "f64", [])), (1, pv("u32", 42))])),
+        ("rt", 1, "be", ("S", "F", [(0, 0, P("u64")), (1, 0, ("S", "F", [(0, 0, ("Q", P("u64"))), (1, 0, P("u32"))]))]),
+         ("d", [(0, pv("u64", 1)), (1, ("d", [(0, ("q", "u64", [])), (1, pv("u32", 42))]))])),
         ("rt", 2, "le", ("S", "F", [(0, 0, ("w",))]), ("d", [(0, ("s", [97]))])),
         ("rt", 2, "le", ("S", "F", [(0, 0, P("c8"))]), ("d", [(0, pv("c8", 233))])),
         ("rt", 1, "le", ("S", "F", [(0, 1, P("u8")), (1, 0, P("u64"))]), ("d", [(0, pv("u8", 1)), (1, pv("u64", 2))])),
